@@ -248,6 +248,21 @@ Definition run (st : gstate) (h : list event) : gstate := fold_left step h st.
 (* a multiaddr is abstracted to what manet.ToIP returns for it: the IP of a
    leading /ip4 or /ip6 component, or nothing (dns*, unix, p2p-circuit
    without a leading IP, ...) *)
+(* manet.ToIP over the components of a multiaddr: /ip6zone is skipped, the
+   first /ip4 or /ip6 component is the answer, anything else in front means
+   "not an IP address".  What follows the IP (tcp, udp/quic-v1, ws, a relay's
+   /p2p/<id>/p2p-circuit, ...) is never looked at. *)
+Inductive comp := CIp4 (v : N) | CIp6 (v : N) | CZone | COther.
+
+Fixpoint to_ip (a : list comp) : option ip :=
+  match a with
+  | [] => None
+  | CZone :: r => to_ip r
+  | CIp4 v :: _ => Some (IP4 v)
+  | CIp6 v :: _ => Some (IP16 v)
+  | COther :: _ => None
+  end.
+
 Definition peer_blocked (m : rules) (p : Z) : bool := s_mem Z.eqb p (r_peers m).
 
 Definition ip_refused (m : rules) (a : ip) : bool :=
